@@ -132,11 +132,16 @@ class Prop:
             stats = dict(kind="history", length=len(desc["ops"]) // 10 * 10, trees=ntrees, copies=min(r.stats.get("_copies", 0), 3),
                          copied_nodes=r.stats.get("_pairs", 0) // 4 * 4, errors=errs // 3 * 3)
             nontrivial = changed > 0 and r.stats.get("_copies", 0) > 0
-        fail = None
-        if fails:
-            op, (si, name, msg) = fails[0]
+        fail = finding = None
+        real = [f for f in fails if f[1][1] != "D47"]
+        if real:
+            op, (si, name, msg) = real[0]
             fail = f"{name}: {msg} [step {si}: {op}]"
-        return Case(desc=desc, coq_input=term, impl_obs=obs, oracle_fail=fail, nontrivial=nontrivial,
+        elif fails:
+            # only the pinned deviation D47 (top node of a typed copy gets the default kind): a known finding
+            op, (si, name, msg) = fails[0]
+            fail, finding = f"D47: {msg} [step {si}: {op}]", "D47"
+        return Case(desc=desc, coq_input=term, impl_obs=obs, oracle_fail=fail, finding=finding, nontrivial=nontrivial,
                     key=H.digest([desc["univ"], desc.get("setup"), desc.get("alts"), desc.get("ops")]), stats=stats)
 
 
